@@ -300,6 +300,53 @@ fn held_callee_case(index: u64, st: &mut Stats) {
     }
 }
 
+/// Fresh-literal family (C10): a literal that builds a mutable container (a list, alone or inside a tuple, a
+/// nested tuple or a blob) is evaluated several times - by two calls, by loop iterations, by the activations of
+/// a recursion, by two closures from one factory; each evaluation gives a container of its own, so what one
+/// activation pushes is not seen by another. 6 literal shapes x 4 evaluation forms, closed-form expectation.
+const FRESH_SLOTS: u64 = 6 * 4;
+
+fn fresh_literal_case(index: u64, st: &mut Stats) {
+    // (literal, accessor of the inner list, its initial length)
+    let shapes: [(&str, &str, i64); 6] = [("[]", "v", 0), ("[1, 2]", "v", 2), ("(0, [])", "v[1]", 0), ("(\"hits\", [5])", "v[1]", 1), ("Box { l: [] }", "v.l", 0), ("(0, (1, []))", "v[1][1]", 0)];
+    let (lit, acc, base) = shapes[(index % 6) as usize];
+    let form = (index / 6) % 4;
+    let decls = "Box :: blob {\n    l: [int],\n}\n\n";
+    let (body, expect): (String, Vec<String>) = match form {
+        0 => (
+            format!("mk :: fn ->\n    {lit}\nend\n\nstart :: fn do\n    v := mk()\n    list.push({acc}, 7)\n    w := mk()\n    list.push({accw}, 8)\n    list.push({accw}, 9)\n    print(list.len({acc}))\n    print(list.len({accw}))\nend\n", lit = lit, acc = acc, accw = acc.replacen("v", "w", 1)),
+            vec![(base + 1).to_string(), (base + 2).to_string()],
+        ),
+        1 => (
+            format!("start :: fn do\n    i := 0\n    loop i < 3 do\n        i += 1\n        v := {lit}\n        list.push({acc}, i)\n        print(list.len({acc}))\n    end\nend\n", lit = lit, acc = acc),
+            vec![(base + 1).to_string(); 3],
+        ),
+        2 => (
+            format!("visit :: fn n: int -> int do\n    v := {lit}\n    list.push({acc}, n)\n    if n > 0 do\n        print(visit(n - 1))\n    end\n    list.len({acc})\nend\n\nstart :: fn do\n    print(visit(2))\nend\n", lit = lit, acc = acc),
+            vec![(base + 1).to_string(); 3],
+        ),
+        _ => (
+            format!("counter :: fn -> fn -> int do\n    v := {lit}\n    fn -> int do\n        list.push({acc}, 1)\n        list.len({acc})\n    end\nend\n\nstart :: fn do\n    a := counter()\n    b := counter()\n    print(a())\n    print(a())\n    print(b())\nend\n", lit = lit, acc = acc),
+            vec![(base + 1).to_string(), (base + 2).to_string(), (base + 1).to_string()],
+        ),
+    };
+    let text = format!("{}{}", decls, body);
+    let what = format!("literal `{}` evaluated by {}", lit, ["two calls", "loop iterations", "the activations of a recursion", "two closures from one factory"][form as usize]);
+    st.count("fresh_literal_programs");
+    let viol = |sig: &str, obs: String| Violation { signature: sig.to_string(), hazard: None, case: index, detail: J::obj().with("what", J::s(what.clone())).with("program", J::s(text.clone())).with("expected_prints", J::Arr(expect.iter().map(|e| J::s(e.clone())).collect())).with("observed", J::s(obs)) };
+    match sy::compile_files(&sy::one_file(&text), "main.sy", &sy::CompileOpts { fuel: Some(crate::rel::CAMPAIGN_FUEL), ..Default::default() }) {
+        sy::Compiled::Ok(b) => match lua::run_simple(&String::from_utf8_lossy(&b)) {
+            lua::Simple::Prints(p) if p == expect => {
+                st.count("fresh_literal_programs_as_expected");
+                st.nontrivial(hash64(text.as_bytes()));
+            }
+            lua::Simple::Prints(p) => st.violation(viol("held:literal-container-shared-between-evaluations", format!("{:?}", p))),
+            other => st.violation(viol("held:fresh-literal-run-failed", format!("{:?}", other).chars().take(300).collect())),
+        },
+        other => st.violation(viol("held:fresh-literal-template-rejected", other.brief())),
+    }
+}
+
 /// Expression-result family (C01): the value of an if / case / and / or expression is combined with the
 /// result of a recursive call of the same function; each activation's expression value depends on its
 /// argument, so the sum has a closed form. 12 expression shapes x value before / after the call.
@@ -636,6 +683,10 @@ impl Check for Traced {
         }
         if self.prop == "C10" && index < HELD_SLOTS + CAPTURE_SLOTS + TARGET_SLOTS + CALLEE_SLOTS {
             held_callee_case(index - HELD_SLOTS - CAPTURE_SLOTS - TARGET_SLOTS, st);
+            return;
+        }
+        if self.prop == "C10" && index < HELD_SLOTS + CAPTURE_SLOTS + TARGET_SLOTS + CALLEE_SLOTS + FRESH_SLOTS {
+            fresh_literal_case(index - HELD_SLOTS - CAPTURE_SLOTS - TARGET_SLOTS - CALLEE_SLOTS, st);
             return;
         }
         let mut rng = Rng::for_case(ctx.seed, self.prop, index);
